@@ -257,8 +257,9 @@ func (vc *VC) calleeEnv(ci *calleeInfo, heap, old *Heap) *Env {
 				if fv.Name() == name {
 					et, _ := derefType(fv.Type())
 					s := sortOf(et)
-					cf := fmt.Sprintf("capt_%s_%d", sanitize(shortKey(funcKey(fn))), i)
-					_ = cf
+					if isPlainStruct(et) {
+						return TV{T: ci.closureBind[i], S: goSType(fv.Type())}, true
+					}
 					return TV{T: app("select", vc.hget(ce.heap, cellArr(s), arrSort(s)), ci.closureBind[i]), S: goSType(et)}, true
 				}
 			}
@@ -349,6 +350,9 @@ func (vc *VC) applyContract(st *State, ci *calleeInfo, instr ssa.Instruction, si
 	}
 	for _, en := range c.Ensures {
 		st.assume = append(st.assume, vc.trClause(post, en))
+	}
+	if ci.key == "(*sync.WaitGroup).Wait" {
+		vc.joinThreads(st, instr)
 	}
 	switch len(out) {
 	case 0:
@@ -565,6 +569,12 @@ func (vc *VC) frameCheck(st *State, env *Env, c *Contract, site string) {
 				conds = append(conds, not(eq("fx", a)))
 			}
 			goal = fmt.Sprintf("(forall ((fx Int)) (=> %s (= (select %s fx) (select %s fx))))", and(conds...), final, initial)
+		} else if ks := arraySorts(s); len(allowed[n]) > 0 && ks != nil {
+			var conds []Term
+			for _, a := range allowed[n] {
+				conds = append(conds, not(eq("fx", a)))
+			}
+			goal = fmt.Sprintf("(forall ((fx %s)) (=> %s (= (select %s fx) (select %s fx))))", ks[0], and(conds...), final, initial)
 		} else {
 			goal = eq(final, initial)
 		}
@@ -1110,9 +1120,185 @@ func (vc *VC) modOfCall(st *State, call ssa.CallInstruction, inLoop func(ssa.Val
 }
 
 // ---------- goroutines (fork/join) ----------
+//
+// Only the shape "wg.Add(n); for ... { go closure(args) }; wg.Wait()" is supported. A go statement does not run the
+// thread: it records the fork in ghost state (GV_Forks, per-closure argument arrays, wg.Forked). The thread body is
+// verified separately against its thread contract. At wg.Wait() the parent (1) must show Added == Forked, (2) must
+// show that the non-ghost, non-synchronised locations the threads may write are pairwise disjoint, and (3) may then
+// assume every forked thread's postcondition.
+
+func forkArgArr(fn *ssa.Function, name string) string {
+	return "GV_ForkArg_" + sanitize(shortKey(funcKey(fn))) + "_" + sanitize(name)
+}
 
 func (vc *VC) execGo(st *State, g *ssa.Go) {
-	vc.unsupported(g, "go statement (fork/join rule not enabled for this function)")
+	mc, ok := g.Call.Value.(*ssa.MakeClosure)
+	var fn *ssa.Function
+	var binds []Term
+	if ok {
+		fn = mc.Fn.(*ssa.Function)
+		for _, b := range mc.Bindings {
+			binds = append(binds, vc.val(st, b).T)
+		}
+	} else if v := vc.val(st, g.Call.Value); v.Closure != nil {
+		fn = v.Closure.Fn.(*ssa.Function)
+		mc = v.Closure
+		for _, b := range mc.Bindings {
+			binds = append(binds, vc.val(st, b).T)
+		}
+	} else {
+		vc.unsupported(g, "go statement on something other than a closure literal")
+	}
+	c := vc.lookupContract(funcKey(fn))
+	if c == nil || !c.Thread {
+		vc.unsupported(g, "missing-contract: go statement needs a thread contract for %s", funcKey(fn))
+	}
+	site := vc.siteOf(g)
+	forks := vc.hget(st.heap, "GV_Forks", "Int")
+	ci := &calleeInfo{key: funcKey(fn), contract: c, sig: fn.Signature, fn: fn, closure: mc, closureBind: binds}
+	for i, a := range g.Call.Args {
+		v := vc.val(st, a)
+		ci.args = append(ci.args, vc.tvOf(v, a.Type()))
+		arr := forkArgArr(fn, fn.Params[i].Name())
+		s := sortOf(fn.Params[i].Type())
+		cur := vc.hget(st.heap, arr, arrSort(s))
+		vc.setHeap(st, arr, arrSort(s), app("store", cur, forks, v.T))
+	}
+	env := vc.calleeEnv(ci, st.heap, st.heap)
+	env.vars["tid"] = TV{T: forks, S: stInt}
+	for _, r := range c.Requires {
+		gl := vc.trClause(env, r)
+		vc.oblige(st, gl, r.Label, "requires", site, clauseProps(r, vc.props()), r.Src, ci.key)
+		st.assume = append(st.assume, gl)
+	}
+	if c.ThreadWG != nil {
+		wg := env.tr(c.ThreadWG)
+		arr := vc.hget(st.heap, "G_sync_WaitGroup_Forked", arrSort("Int"))
+		vc.setHeap(st, "G_sync_WaitGroup_Forked", arrSort("Int"), app("store", arr, wg.T, app("+", app("select", arr, wg.T), "1")))
+	}
+	vc.setHeap(st, "GV_Forks", "Int", app("+", forks, "1"))
+	st.forked = append(st.forked, g)
+}
+
+// joinThreads is called after (*sync.WaitGroup).Wait returned.
+func (vc *VC) joinThreads(st *State, instr ssa.Instruction) {
+	site := vc.siteOf(instr)
+	base := st.joinBase
+	if base == "" {
+		base = vc.d.declConst("GV_Forks", "Int")
+	}
+	forks := vc.hget(st.heap, "GV_Forks", "Int")
+	// all go sites of this function (they may be inside loops that were cut: use the static list)
+	seen := map[*ssa.Function]bool{}
+	for _, b := range vc.fn.Blocks {
+		for _, ins := range b.Instrs {
+			g, ok := ins.(*ssa.Go)
+			if !ok {
+				continue
+			}
+			mc, ok := g.Call.Value.(*ssa.MakeClosure)
+			if !ok {
+				continue
+			}
+			fn := mc.Fn.(*ssa.Function)
+			if seen[fn] {
+				continue
+			}
+			seen[fn] = true
+			c := vc.lookupContract(funcKey(fn))
+			if c == nil || !c.Thread {
+				continue
+			}
+			var binds []Term
+			for _, bv := range mc.Bindings {
+				if x, ok := st.vals[bv]; ok && x.T != "" {
+					binds = append(binds, x.T)
+				} else {
+					vc.unsupported(instr, "join: closure binding %s is not defined outside the forking loop", bv.Name())
+				}
+			}
+			pre := st.heap.clone()
+			k := "jk"
+			mkEnv := func(heap, old *Heap, kv Term) *Env {
+				ci := &calleeInfo{key: funcKey(fn), contract: c, sig: fn.Signature, fn: fn, closure: mc, closureBind: binds}
+				for _, p := range fn.Params {
+					s := sortOf(p.Type())
+					ci.args = append(ci.args, TV{T: app("select", vc.hget(pre, forkArgArr(fn, p.Name()), arrSort(s)), kv), S: goSType(p.Type())})
+				}
+				e := vc.calleeEnv(ci, heap, old)
+				e.vars["tid"] = TV{T: kv, S: stInt}
+				return e
+			}
+			inRange := and(app("<=", base, k), app("<", k, forks))
+			// (2) disjointness of real memory written by different threads
+			e1 := mkEnv(pre, pre, "jk")
+			e2 := mkEnv(pre, pre, "jl")
+			type tgt struct {
+				lv      LV
+				perTid  bool
+				ghost   bool
+				src     string
+				any     bool
+			}
+			var tgts []tgt
+			for _, t := range c.Assigns {
+				l1 := e1.lvals(t.Expr)
+				l2 := e2.lvals(t.Expr)
+				for i, lv := range l1 {
+					ghost := strings.HasPrefix(lv.Arr, "GV_") || strings.HasPrefix(lv.Arr, "G_")
+					tgts = append(tgts, tgt{lv: lv, perTid: lv.Idx == "jk", ghost: ghost, src: t.Src, any: t.Any})
+					if ghost {
+						continue
+					}
+					var goal Term
+					if t.Any || lv.Idx == "" {
+						goal = app("<=", app("-", forks, base), "1")
+					} else {
+						goal = fmt.Sprintf("(forall ((jk Int) (jl Int)) (=> (and %s %s (not (= jk jl))) (not (= %s %s))))", inRange, strings.ReplaceAll(inRange, "jk", "jl"), lv.Idx, l2[i].Idx)
+					}
+					vc.oblige(st, goal, "thread-frames-disjoint:"+t.Src, "thread", site, clauseProps(&Clause{}, vc.props()),
+						"no two threads forked here write the same location "+t.Src, funcKey(fn))
+				}
+			}
+			// (3) havoc what the threads assign, then assume every thread's postcondition
+			var sharedSyms []string
+			for _, tg := range tgts {
+				if tg.lv.Idx != "" && !tg.any && !strings.Contains(tg.lv.Idx, "jk") {
+					// the same single location for every thread (e.g. the WaitGroup's counter): its final value is the
+					// combined effect of all threads, which no single thread's postcondition describes
+					cur := vc.hget(st.heap, tg.lv.Arr, tg.lv.Sort)
+					vc.setHeap(st, tg.lv.Arr, tg.lv.Sort, app("store", cur, tg.lv.Idx, vc.d.freshConst("joined", arraySorts(tg.lv.Sort)[1])))
+					sharedSyms = append(sharedSyms, st.heap.cur[tg.lv.Arr])
+					continue
+				}
+				vc.havocHeap(st, tg.lv.Arr, tg.lv.Sort)
+			}
+			post := mkEnv(st.heap, pre, k)
+			var ens []Term
+			for _, en := range c.Ensures {
+				t := vc.trClause(post, en)
+				skip := false
+				for _, sym := range sharedSyms {
+					if strings.Contains(t, sym) {
+						skip = true // speaks about a location shared by all threads: not composable per thread
+					}
+				}
+				if !skip {
+					ens = append(ens, t)
+				}
+			}
+			st.assume = append(st.assume, fmt.Sprintf("(forall ((jk Int)) (=> %s %s))", inRange, and(ens...)))
+			// per-thread ghost slots of other threads are untouched
+			for _, tg := range tgts {
+				if tg.perTid {
+					newA := vc.hget(st.heap, tg.lv.Arr, tg.lv.Sort)
+					oldA := vc.hget(pre, tg.lv.Arr, tg.lv.Sort)
+					st.assume = append(st.assume, fmt.Sprintf("(forall ((jk Int)) (! (=> (not %s) (= (select %s jk) (select %s jk))) :pattern ((select %s jk))))", inRange, newA, oldA, newA))
+				}
+			}
+		}
+	}
+	st.joinBase = forks
 }
 
 // staticOrdinal: position of a call among the calls to the same callee in this function, in source order.
